@@ -18,6 +18,9 @@ class Summ:
         self._ret = {}
         self._flag = {}
         self.notes = []
+        self._ntag = 0
+        self._exp = {}
+        self.tagnum = {}
 
     # ---------------------------------------------------------------- atoms (structured keys)
     def lit_is(self, subj, variant):
@@ -53,6 +56,11 @@ class Summ:
                 op, neg = "Gt", True
             elif op == "Lt":
                 op, neg = "Ge", True
+            # lengths are unsigned: len == 0  <=>  !(len > 0) ;  len >= 1  <=>  len > 0
+            if a[0] == "len" and b == ("const", "int", 0) and op == "Eq":
+                op, neg = "Gt", not neg
+            elif a[0] == "len" and b == ("const", "int", 1) and op == "Ge":
+                op, b = "Gt", ("const", "int", 0)
             f = B.atom(("rel", op, a, b))
             return B.Not(f) if neg else f
         if k == "call":
@@ -60,7 +68,11 @@ class Summ:
             if tb is not None and tb.local_ty(0) == "bool":
                 rc = self.ret_cond(tb)
                 env = {i + 1: a for i, a in enumerate(t[2])}
-                return self.subst(rc, env)
+                # the predicate's own loops bind their own element variables (one fresh set per call site)
+                if t not in self._exp:
+                    self._ntag += 1
+                    self._exp[t] = self.subst(self.tag_elems(rc, ("call", tb.path, self._ntag)), env)
+                return self._exp[t]
             return B.atom(("pred", t))
         if k == "phi":
             members = t[2]
@@ -135,8 +147,51 @@ class Summ:
                 if not body.dominates(f, t):
                     raise Unanalysable("flag _%d of %s is reset after being set" % (local, body.path))
         r = B.Or(*[self.guard(body, bb) for bb in trues])
+        # "some iteration set the flag": the loop elements mentioned are bound by the flag, not by the reader's position
+        inner = set()
+        for bb in trues:
+            for h in body.loops_of(bb):
+                inner.add(h)
+        r = self.tag_elems(r, ("flag", body.path, local), only_loops=(body, inner, trues))
         self._flag[key] = r
         return r
+
+    def tag_elems(self, f, tag, only_loops=None):
+        """rename the element variables bound by loops of the expanded predicate / flag"""
+        keep = None
+        if only_loops is not None:
+            # elements of loops that enclose every reader of the flag as well are shared with the reader (same iteration)
+            body, heads, trues = only_loops
+            keep = set()
+            import order as O
+            for lp in O.loops_of_body(body):
+                if lp.head in heads:
+                    # a loop is private to the flag if the flag is (re)initialised outside it
+                    inits = [d[0] for d in body.defs.get(tag[2], []) if d[0] not in trues]
+                    if all(i not in lp.blocks for i in inits):
+                        keep.add(("elem", lp.iterable))
+            if not keep:
+                return f
+
+        def tr(t):
+            if not isinstance(t, tuple) or not t:
+                return t
+            if t[0] == "elem" and t[1][0] != "iter" and (keep is None or t in keep):
+                return ("elem", ("iter", tr(t[1]), tag))
+            if t[0] in ("const", "obj", "rec", "unknown", "bottom", "param"):
+                return t
+            return tuple(tr(x) if isinstance(x, tuple) else x for x in t)
+
+        def fn(key):
+            k = key[0]
+            if k == "is":
+                return B.atom(("is", tr(key[1]), key[2]))
+            if k == "rel":
+                return B.atom(("rel", key[1], tr(key[2]), tr(key[3])))
+            if k == "pred":
+                return B.atom(("pred", tr(key[1])))
+            return None
+        return B.subst_atoms(f, fn)
 
     # ---------------------------------------------------------------- substitution / rendering
     def subst(self, f, env):
@@ -171,6 +226,16 @@ class Summ:
         return repr(key)
 
     def render(self, f, names=None):
+        names = dict(names or {})
+        # number the bound element variables in order of first occurrence (the comparison is modulo a permutation of these numbers)
+        for key in B.atoms_of(f):
+            for part in key[1:]:
+                if isinstance(part, tuple):
+                    for x in T.subterms(part):
+                        if x[0] == "iter" and ("tag", x[2]) not in names:
+                            if x[2] not in self.tagnum:
+                                self.tagnum[x[2]] = len(self.tagnum) + 1
+                            names[("tag", x[2])] = self.tagnum[x[2]]
         return B.rename(f, lambda key: self.render_key(key, names))
 
     # ---------------------------------------------------------------- reports
